@@ -312,7 +312,14 @@ def run(prog: Program, chk: Check):
     # type and for ALL at once (manager-only exploration shared with C02-M)
     from .c02 import manager_closure
 
-    ns, nt, mviol = manager_closure(prog)
+    closure_error = None
+    try:
+        ns, nt, mviol = manager_closure(prog)
+    except AnalysisError as e_:
+        # the handlers left the interpreter's vocabulary: this must not hide what the structural rules below establish
+        closure_error = str(e_)
+        chk.defer_error(f"C01-R6/R9 could not interpret the subscription handlers: {e_}")
+        ns, nt, mviol = 0, 0, []
     dbl = [v for v in mviol if v[0] == "double"]
     R6.decide(not dbl, f"{MGR}::MessageManager|no-double-registration", where(prog.func(MGR, "MessageManager.add_subscription")),
               f"{ns} manager states x every control frame: never registered for ALL and an individual type at once",
@@ -361,6 +368,49 @@ def run(prog: Program, chk: Check):
                            f"{f.qual} changes the subscription table (`{norm(hit)[:70]}`): subscribers are added or removed without a control frame")
     if nentry < 3:
         raise AnalysisError(f"anchor vanished: writes to self.subscriptions (found {nentry})")
+
+    # ---- R12 entries are filed under keys of the domain they are looked up with -----------------------------------------------
+    # forward_message looks subscribers up under header.msg_type, a signed 32-bit field.  A key under which a subscription is
+    # filed must be a value of that same domain: the msg_type field of the typed control payload (or ALL_MESSAGE_TYPES, or a key
+    # the table / a module's own record already holds).  A hand-decoded integer is in that domain only if it is decoded as signed
+    # (an id such as -7 filed as 2**32-7 is never found again).
+    R12 = chk.rule("C01-R12", "subscriptions are filed under the payload's msg_type field (a signed id), never under a differently decoded integer", 4,
+                   "a key from another integer domain (unsigned decoding, truncation) is never matched by header.msg_type: the subscriber gets nothing")
+    nkey = 0
+    for f in prog.cls(MGR, "MessageManager").methods.values():
+        if f.name not in ("add_subscription", "remove_subscription") and not prog.is_expanded_helper(f):
+            continue
+        cmf = guards.copy_map(f.node)
+        loopvars = {}
+        for lp in walk_local(f.node):
+            if isinstance(lp, ast.For):
+                for nm_ in [x.id for x in ast.walk(lp.target) if isinstance(x, ast.Name)]:
+                    loopvars[nm_] = norm(lp.iter)
+        for n in walk_local(f.node):
+            if not (isinstance(n, ast.Subscript) and path_of(n.value) == "self.subscriptions"):
+                continue
+            par = getattr(n, "_parent", None)
+            writes = (isinstance(par, ast.Attribute) and par.attr in SETMUT) or isinstance(n.ctx, (ast.Store, ast.Del))
+            if not writes:
+                continue
+            nkey += 1
+            k = guards.subst(n.slice, cmf)
+            kt = norm(k)
+            okk, why_ = False, f"`{kt}`"
+            if isinstance(k, ast.Attribute) and k.attr == "msg_type":
+                okk = True
+            elif kt in ("ALL_MESSAGE_TYPES", "cd.ALL_MESSAGE_TYPES"):
+                okk = True
+            elif isinstance(k, ast.Name) and k.id in loopvars and (loopvars[k.id].replace("list(", "").replace("tuple(", "").rstrip(")").endswith(".subs") or "self.subscriptions" in loopvars[k.id]):
+                okk = True
+            elif isinstance(k, ast.Call) and norm(k.func) == "int.from_bytes":
+                sg = next((kw.value for kw in k.keywords if kw.arg == "signed"), None)
+                okk = isinstance(sg, ast.Constant) and sg.value is True
+                why_ = f"`{kt[:90]}` decodes the id as an unsigned integer: a negative type id is filed under id + 2**32 and never matched by header.msg_type"
+            R12.decide(okk, fkey(f, f"key:{norm(n.slice)}:{par.attr if isinstance(par, ast.Attribute) else 'store'}"), where(f, n), f"key {kt[:60]}",
+                       f"{f.qual}: a subscription is filed under {why_}" + ("" if "unsigned" in why_ else ", which is not the msg_type field of the control payload"))
+    if nkey < 4:
+        raise AnalysisError(f"anchor vanished: keyed writes into self.subscriptions in the subscription handlers (found {nkey})")
 
     # ---- R11 client connections stay blocking: a frame that arrives in pieces is still read whole -----------------------------
     def mode_changes(tree_or_func):
